@@ -41,7 +41,7 @@ TraceInit ==
   /\ phase = "running" /\ step = 0 /\ sub = "idle"
   /\ live = [c \in CompSet |-> 0] /\ timers = 0 /\ conns = 0
   /\ joined = FALSE /\ coordOk = FALSE /\ left = FALSE /\ reachAtLeave = FALSE /\ raised = FALSE /\ waits = 0
-  /\ inBackoff = FALSE /\ rebDone = FALSE /\ hasAssign = FALSE
+  /\ inBackoff = FALSE /\ rebDone = 0 /\ hasAssign = FALSE
   /\ viol = "" /\ sawLeave = FALSE /\ reachStop = FALSE /\ boundMs = Traces[tid][1].bound_ms
 
 Same == UNCHANGED <<viol, sawLeave, reachStop, boundMs>>
@@ -65,7 +65,13 @@ TStopCall ==
   /\ hasAssign' \in BOOLEAN      \* not observable: TLC tries both
   /\ UNCHANGED <<left, reachAtLeave, raised, waits, inBackoff, rebDone, viol, sawLeave, boundMs>>
 
-TLastCommit == IsEvent("LastCommit") /\ (IF sub = "lastcommit" THEN LastCommit ELSE RebalanceCommit) /\ Same
+\* (the commits of the rounds of an interrupted rebalance and the final one are the same call; the LAST event of the
+\* run of LastCommit events is the final commit -- all others are RebalanceCommit)
+TLastCommit ==
+  /\ IsEvent("LastCommit")
+  /\ IF l < Len(Tr) /\ Tr[l + 1].e = "LastCommit" THEN RebalanceCommit
+     ELSE IF sub = "lastcommit" THEN LastCommit ELSE RebalanceCommit
+  /\ Same
 TLeave == IsEvent("Leave") /\ Leave /\ Same
 TFlush == IsEvent("Flush") /\ (IF sub = "flush" THEN Flush ELSE UNCHANGED vars) /\ Same
 
